@@ -517,9 +517,32 @@ func (r *Ring) Exec(t []string) string {
 	case "create":
 		return withTimeout(opTimeout, func() string { return ErrName(r.Node(u(1)).Create()) })
 	case "join":
-		return withTimeout(opTimeout, func() string { return ErrName(r.Node(u(1)).Join(r.Wrap(u(2)))) })
+		return withTimeout(opTimeout, func() string {
+			res := ErrName(r.Node(u(1)).Join(r.Wrap(u(2))))
+			time.Sleep(2 * time.Millisecond) // let the freshly started predecessor check run
+			return res
+		})
 	case "leave":
 		return r.leave(u(1))
+	case "reqleave":
+		return withTimeout(opTimeout, func() string { return ErrName(r.Wrap(u(1)).RequestToLeave(r.Wrap(u(1)))) })
+	case "execleave":
+		return withTimeout(opTimeout, func() string {
+			p, s, err := r.Node(u(1)).VerifExecuteLeave()
+			if err != nil {
+				if strings.Contains(err.Error(), "nil predecessor") {
+					return "err:NilPredecessor"
+				}
+				if strings.Contains(err.Error(), "storing KV to successor") {
+					return "err:ErrLeaveTransferFailure"
+				}
+				return ErrName(err)
+			}
+			if p != nil && s != nil && p.ID() == u(1) && s.ID() == u(1) {
+				return "ok:alone"
+			}
+			return "ok:" + idOrNil(p) + ":" + idOrNil(s)
+		})
 	case "joinbegin":
 		r.mu.Lock()
 		r.pauseArmed, r.pauseSeen = true, false
@@ -558,6 +581,7 @@ func (r *Ring) Exec(t []string) string {
 		}
 		select {
 		case res := <-done:
+			time.Sleep(3 * time.Millisecond) // let the freshly started predecessor check run
 			if res == "ok" {
 				return "ok"
 			}
